@@ -23,6 +23,9 @@ pub enum CfgError {
     /// This error occurs when a return statement is used but can be reached by
     /// no labels.
     NoLabelForReturn(ParserNode),
+    /// This error occurs when a function that is called never reaches a
+    /// return statement. The node is the first instruction of the function.
+    NoReturnInFunction(ParserNode),
     /// Unexpected error
     UnexpectedError,
     /// Assertion error
@@ -62,6 +65,7 @@ impl Display for CfgError {
             CfgError::NoLabelForReturn(_) => {
                 write!(f, "No label for return")
             }
+            CfgError::NoReturnInFunction(_) => write!(f, "Function never returns"),
             CfgError::UnexpectedError => write!(f, "Unexpected error"),
             CfgError::AssertionError => write!(f, "Assertion error"),
         }
@@ -75,6 +79,7 @@ impl From<&CfgError> for SeverityLevel {
             | CfgError::DuplicateLabel(_)
             | CfgError::MultipleLabelsForReturn(_, _)
             | CfgError::NoLabelForReturn(_)
+            | CfgError::NoReturnInFunction(_)
             | CfgError::UnexpectedError
             | CfgError::AssertionError => SeverityLevel::Error,
         }
@@ -84,9 +89,9 @@ impl From<&CfgError> for SeverityLevel {
 impl DiagnosticLocation for CfgError {
     fn file(&self) -> uuid::Uuid {
         match self {
-            CfgError::MultipleLabelsForReturn(node, _) | CfgError::NoLabelForReturn(node) => {
-                node.file()
-            }
+            CfgError::MultipleLabelsForReturn(node, _)
+            | CfgError::NoLabelForReturn(node)
+            | CfgError::NoReturnInFunction(node) => node.file(),
             CfgError::LabelsNotDefined(labels) => labels.iter().min().unwrap().file(),
             CfgError::DuplicateLabel(label) => label.file(),
             CfgError::UnexpectedError | CfgError::AssertionError => uuid::Uuid::nil(),
@@ -95,9 +100,9 @@ impl DiagnosticLocation for CfgError {
 
     fn range(&self) -> crate::parser::Range {
         match self {
-            CfgError::MultipleLabelsForReturn(node, _) | CfgError::NoLabelForReturn(node) => {
-                node.range()
-            }
+            CfgError::MultipleLabelsForReturn(node, _)
+            | CfgError::NoLabelForReturn(node)
+            | CfgError::NoReturnInFunction(node) => node.range(),
             CfgError::LabelsNotDefined(labels) => labels.iter().min().unwrap().range(),
             CfgError::DuplicateLabel(label) => label.range(),
             CfgError::UnexpectedError | CfgError::AssertionError => crate::parser::Range::default(),
@@ -106,9 +111,9 @@ impl DiagnosticLocation for CfgError {
 
     fn raw_text(&self) -> String {
         match self {
-            CfgError::MultipleLabelsForReturn(node, _) | CfgError::NoLabelForReturn(node) => {
-                node.raw_text()
-            }
+            CfgError::MultipleLabelsForReturn(node, _)
+            | CfgError::NoLabelForReturn(node)
+            | CfgError::NoReturnInFunction(node) => node.raw_text(),
             CfgError::LabelsNotDefined(labels) => labels.iter().min().unwrap().raw_text(),
             CfgError::DuplicateLabel(label) => label.raw_text(),
             CfgError::UnexpectedError | CfgError::AssertionError => String::new(),
@@ -158,6 +163,9 @@ impl DiagnosticMessage for CfgError {
                 A label is considered a function if it has been called by a [jal] instruction. This code might also be\
                 missing from your file or imports.
                 ".to_string(),
+            CfgError::NoReturnInFunction(_) => "This function is called, but no return statement can be reached from its first instruction.\n\n\
+                A label is considered a function if it has been called by a [jal] instruction. Every function needs a\
+                return statement ([ret]) that its code reaches.".to_string(),
             CfgError::UnexpectedError => "An unexpected error occurred. Please file a bug.".to_string(),
             CfgError::AssertionError => "An unexpected assertion error occurred. Please file a bug.".to_string(),
         }
